@@ -96,6 +96,91 @@ theorem C19_admission_sound (p : Pool) (txs : List TxR) :
     (admission p txs).2.Pairwise (fun a b => (a.acct, a.nonce) ≠ (b.acct, b.nonce)) :=
   ⟨(admission_facts p txs).2.2.1, (admission_facts p txs).2.2.2⟩
 
+/-! ### before the pool: the transaction cache -/
+
+/-- **the transaction cache loses nothing and keeps the order**: whatever arrives (nil transactions aside, which are dropped with
+an error), the sets `TxCache` posts are, concatenated, exactly the arrivals in arrival order; every set but the last holds exactly
+`size` transactions, the last (posted by the tick) at least one and fewer than `size` -/
+theorem C19_txcache_loses_nothing {α : Type} (size : Nat) (hs : 0 < size) (arrivals : List (Option α)) :
+    (txCacheRun size arrivals).flatten = arrivals.filterMap id ∧
+    (∀ st ∈ txCacheRun size arrivals, 1 ≤ st.length ∧ st.length ≤ size) := by
+  unfold txCacheRun
+  simp only
+  have inv := foldl_inv (fun (acc : List (List α) × List α) => acc.2.length < size ∧ (∀ st ∈ acc.1, st.length = size))
+    (fun (acc : List (List α) × List α) (a : Option α) =>
+      match a with
+      | none => acc
+      | some tx =>
+        let cur := acc.2 ++ [tx]
+        if cur.length ≥ size then (acc.1 ++ [cur], []) else (acc.1, cur)) arrivals ([], [])
+    ⟨by simpa using hs, by intro _ h; cases h⟩
+    (by
+      intro b a _ ⟨h1, h2⟩
+      cases a with
+      | none => exact ⟨h1, h2⟩
+      | some tx =>
+        simp only
+        split
+        · rename_i hge
+          refine ⟨by simpa using hs, ?_⟩
+          intro st hset
+          rcases List.mem_append.mp hset with h | h
+          · exact h2 st h
+          · simp only [List.mem_singleton] at h
+            subst h
+            simp only [List.length_append, List.length_cons, List.length_nil] at hge ⊢
+            omega
+        · rename_i hlt
+          simp only [List.length_append, List.length_cons, List.length_nil] at hlt ⊢
+          exact ⟨by omega, h2⟩)
+  have flat : ∀ (arr : List (Option α)) (acc : List (List α) × List α),
+      let r := arr.foldl (fun (acc : List (List α) × List α) (a : Option α) =>
+        match a with
+        | none => acc
+        | some tx =>
+          let cur := acc.2 ++ [tx]
+          if cur.length ≥ size then (acc.1 ++ [cur], []) else (acc.1, cur)) acc
+      r.1.flatten ++ r.2 = acc.1.flatten ++ acc.2 ++ arr.filterMap id := by
+    intro arr
+    induction arr with
+    | nil => intro acc; simp
+    | cons a rest ih =>
+      intro acc
+      simp only [List.foldl_cons]
+      cases a with
+      | none => simpa using ih acc
+      | some tx =>
+        simp only
+        split
+        · have := ih (acc.1 ++ [acc.2 ++ [tx]], [])
+          simp only at this
+          rw [this]; simp
+        · have := ih (acc.1, acc.2 ++ [tx])
+          simp only at this
+          rw [this]; simp
+  have hf := flat arrivals ([], [])
+  simp only [List.flatten_nil, List.nil_append] at hf
+  generalize (arrivals.foldl _ (([] : List (List α)), ([] : List α))) = r at inv hf ⊢
+  obtain ⟨i1, i2⟩ := inv
+  split
+  · rename_i he
+    have : r.2 = [] := by simpa using he
+    rw [this] at hf
+    refine ⟨by simpa using hf, fun st hset => ?_⟩
+    have := i2 st hset
+    omega
+  · rename_i hne
+    refine ⟨by simpa using hf, fun st hset => ?_⟩
+    rcases List.mem_append.mp hset with h | h
+    · have := i2 st h; omega
+    · simp only [List.mem_singleton] at h
+      rw [h]
+      have : r.2 ≠ [] := by simpa using hne
+      have : 0 < r.2.length := List.length_pos_iff.mpr this
+      omega
+
+example : txCacheRun 3 [some 1, some 2, none, some 3, some 4] = [[1, 2, 3], [4]] := by decide
+
 /-! ### …and over whole histories -/
 
 inductive Op
